@@ -28,6 +28,9 @@ if [ "${1:-}" = "setup" ]; then
   build_stable
   build_nightly
   "$H/target/release/check" selftest || exit 2
+  # thorough-tier extras (failures here only disable the extras, see the INFRA lines of check.sh)
+  (cd "$H" && cargo +nightly fuzz build >"$LOG.fuzz" 2>&1) || echo "note: fuzz targets did not build (thorough tier will skip the libFuzzer campaigns)"
+  (cd "$H" && cargo build --profile plain --bin check --target-dir "$H/target-plain" >"$LOG.plain" 2>&1) || echo "note: plain release build failed"
   echo "setup ok"
   exit 0
 fi
@@ -44,12 +47,64 @@ if [ "$MODE" = "--replay" ]; then
   if [ -z "${2:-}" ] || [ ! -r "$2" ]; then echo "INFRA: replay file missing or unreadable: ${2:-}"; exit 2; fi
   exec "$BIN" "$ID" --replay "$2"
 fi
-[ -n "${VERIF_TIER:-}" ] && [ "$MODE" = "" ] && MODE="$VERIF_TIER"
+SEED="${VERIF_SEED:-0}"
+final=0
+
+if [ "$MODE" = "thorough" ]; then
+  # (1) coverage-guided campaign (libFuzzer) for the branchy code, oracle restricted to this property
+  case "$ID" in
+    C05|C07|C15) FT=quantile; RUNS=150000 ;;
+    C06|C12|C13) FT=histogram; RUNS=400000 ;;
+    C11|C14|C18|C20) FT=history; RUNS=400000 ;;
+    *) FT="" ;;
+  esac
+  if [ -n "$FT" ]; then
+    if (cd "$H" && cargo +nightly fuzz build "$FT" >"$LOG.fuzz" 2>&1); then
+      CORPUS="$H/fuzz/corpus-run/$ID-$FT"; ART="$H/fuzz/artifacts/$ID-$FT/"
+      rm -rf "$CORPUS" "$ART"; mkdir -p "$CORPUS" "$ART"
+      FSEED=$(( (SEED % 2147483000) + 1 ))   # libFuzzer: 0 means random
+      (cd "$H" && VERIF_FUZZ_ONLY="$ID" timeout 3000 "$H/fuzz/target/x86_64-unknown-linux-gnu/release/$FT" -artifact_prefix="$ART" \
+          -runs=$RUNS -seed=$FSEED -max_len=600 -len_control=0 -print_final_stats=1 "$CORPUS" "$H/fuzz/seeds/$FT" >"$LOG.fuzzrun" 2>&1)
+      frc=$?
+      execs=$(grep -m1 'stat::number_of_executed_units' "$LOG.fuzzrun" | awk '{print $2}')
+      cov=$(grep -E 'cov: [0-9]+' "$LOG.fuzzrun" | tail -1 | sed 's/.*cov: \([0-9]*\).*/\1/')
+      corp=$(ls "$CORPUS" | wc -l)
+      crashes=0
+      for a in "$ART"crash-* "$ART"oom-* "$ART"timeout-*; do
+        [ -e "$a" ] || continue
+        case "$a" in
+          *crash-*) if "$BIN" fuzz-replay "$FT" "$a" --root "$ROOT"; then echo "note: fuzz artifact $a does not fail in strict replay (ignored)"; else crashes=$((crashes+1)); final=1; fi ;;
+          *) echo "INFRA: libFuzzer reported $(basename "$a") — inconclusive, not a violation" ;;
+        esac
+      done
+      export VERIF_FUZZ_STATS="{\"target\":\"$FT\",\"oracle_restricted_to\":\"$ID\",\"executions\":${execs:-0},\"edge_coverage\":${cov:-0},\"corpus_units\":$corp,\"seed\":$FSEED,\"crashes_confirmed_as_violations\":$crashes,\"exit\":$frc,\"note\":\"libFuzzer campaigns are only approximately reproducible from a seed; the saved input is the reproducible unit\"}"
+      echo "fuzz $FT (oracle $ID): executions=${execs:-0} cov=${cov:-0} corpus=$corp confirmed_violations=$crashes"
+    else
+      echo "INFRA: fuzz target $FT does not build (see $LOG.fuzz) — skipping the coverage-guided campaign"
+    fi
+  fi
+  # (2) the same quick-tier work on a plain release build (no debug assertions / overflow checks)
+  case "$ID" in
+    C06|C12|C13) : ;;  # nightly-only checks: skipped
+    *)
+      if (cd "$H" && cargo build --profile plain --bin check --target-dir "$H/target-plain" >"$LOG.plain" 2>&1); then
+        timeout 3000 "$H/target-plain/plain/check" "$ID" --tier quick --seed "$SEED" --root "$ROOT" --no-evidence
+        prc=$?
+        [ $prc -eq 1 ] && final=1
+        [ $prc -ne 0 ] && [ $prc -ne 1 ] && echo "INFRA: plain-build cross-check ended with rc=$prc — inconclusive"
+      else
+        echo "INFRA: plain release build failed (see $LOG.plain) — cross-check skipped"
+      fi ;;
+  esac
+fi
+
 WATCHDOG=3000; [ "$MODE" = "thorough" ] && WATCHDOG=14000
-timeout "$WATCHDOG" "$BIN" "$ID" --tier "$MODE" --seed "${VERIF_SEED:-0}" --root "$ROOT"
+timeout "$WATCHDOG" "$BIN" "$ID" --tier "$MODE" --seed "$SEED" --root "$ROOT"
 rc=$?
 if [ $rc -eq 124 ] || [ $rc -gt 2 ]; then
   echo "INFRA: check $ID ended abnormally (rc=$rc: watchdog, signal or out of memory) — inconclusive, not a violation"
+  [ $final -eq 1 ] && exit 1
   exit 2
 fi
+[ $final -eq 1 ] && exit 1
 exit $rc
